@@ -16,7 +16,7 @@ from funsor.interpretations import (
 )
 from funsor.interpreter import get_interpretation
 from funsor.ops import DISTRIBUTIVE_OPS, AssociativeOp
-from funsor.terms import Funsor
+from funsor.terms import Funsor, Variable
 from funsor.typing import Variadic
 
 from . import ops
@@ -30,6 +30,38 @@ def unfold_contraction_generic_tuple(red_op, bin_op, reduced_vars, terms):
     for i, v in enumerate(terms):
         if not isinstance(v, Contraction):
             continue
+
+        # The rules below move v's reduced variables into this contraction, so
+        # rename them apart from every other variable in sight first (e.g. the
+        # same reduced subterm occurring twice shares its bound names).
+        if v.reduced_vars:
+            taken = {var.name for var in reduced_vars}
+            for j, t in enumerate(terms):
+                if j != i:
+                    taken.update(t.inputs)
+                    if isinstance(t, Contraction):
+                        taken.update(var.name for var in t.reduced_vars)
+            clash = frozenset(var for var in v.reduced_vars if var.name in taken)
+            if clash:
+                rename = {
+                    var.name: Variable(
+                        interpreter.gensym(var.name.split("__BOUND")[0] + "__BOUND"),
+                        var.output,
+                    )
+                    for var in clash
+                }
+                v = Contraction(
+                    v.red_op,
+                    v.bin_op,
+                    (v.reduced_vars - clash) | frozenset(rename.values()),
+                    *(
+                        t(**{k: r for k, r in rename.items() if k in t.inputs})
+                        for t in v.terms
+                    ),
+                )
+                terms = terms[:i] + (v,) + terms[i + 1 :]
+                if not isinstance(v, Contraction):
+                    continue
 
         if v.red_op is ops.null and (v.bin_op, bin_op) in DISTRIBUTIVE_OPS:
             # a * e * (b + c + d) -> (a * e * b) + (a * e * c) + (a * e * d)
